@@ -11,7 +11,7 @@ RULE = ("all 8192 13-bit codes through common.altitude (exhaustive), each code e
         "with random contexts; oracle: Q=1 -> 25N-1000, Q=0 -> inverse of a Gillham *encoder* over -1200..126700 ft (1280 codes) else None, "
         "M=1 -> |alt - 3.28084 N| < 1, zero -> None, GNSS height -> 3.28084 N; results must not depend on the context. "
         "non-trivial = Q=0 or M=1 codes and illegal Gillham patterns (distinct by code and carrier)"
-        ' Also: the common helpers called on the same string before the judged decoder and every call made twice (call history), one constant context per carrier so that consecutive frames differ in the field only, 937 real airborne-position frames (leg corpus), more than 2^20 distinct frames in a row in one process (leg volume).')
+        ' Also: the common helpers called on the same string before the judged decoder and every call made twice (call history), one constant context per carrier so that consecutive frames differ in the field only, 937 real airborne-position frames (leg corpus), more than 2^20 distinct frames in a row in one process (leg volume), the first altitude decodes of a freshly imported package made by four threads at once (leg first_use).')
 ASSUMPTIONS = ["Gillham table produced by ref/gillham.py's encoder (Annex 10 reflected-binary 500 ft + 100 ft sub-code)",
                "metric altitudes are judged to < 1 ft because the decoder truncates the converted value"]
 
@@ -195,7 +195,25 @@ def vol_step(a, b, k):
     return judge(call(pms.common.altcode, msg), code, "common.altcode(%s)" % msg)
 
 
+
+# ---------------------------------------------------------------- first calls of a freshly imported package, four threads at once
+def first_jobs(rng):
+    jobs = []
+    legal = sorted(gillham.GILLHAM_TABLE)
+    for i in range(40):
+        code = rng.choice(legal) if i % 4 else rng.getrandbits(13)
+        df = rng.choice([0, 4, 16, 20])
+        n = 56 if df in (0, 4) else 112
+        body = (rng.getrandbits(14) << 13) | code
+        if n == 112:
+            body = (body << 56) | rng.getrandbits(56)
+        msg = frames.tohex(frames.raw(df, body, n, rng.getrandbits(24)), n, "U")
+        jobs.append(("common.altcode", (msg,), (lambda got, code=code, msg=msg: judge(got, code, "common.altcode(%s)" % msg))))
+    return jobs
+
+
 LEGS = [
+    variants.first_use_leg(first_jobs),
     volume.leg(vol_step, 1100000, 2400000, "1.1 million (thorough: 2.4 million per process) distinct DF0/4/16/20 frames through altcode() in one process"),
     Leg("corpus", chk_corpus, enum=enum_corpus, exhaustive=True, doc="937 real airborne position frames: library altitude agrees with the reference table and re-encodes to the transmitted field"),
     Leg("code13", chk_code13, enum=enum_code13, exhaustive=True, doc="all 8192 codes through common.altitude"),
